@@ -118,6 +118,15 @@ def run(c, index, tier):
 
     env()
     model = ConstraintKMeans(n_clusters=k, strategy=strategy, kmeans0=kmeans0, random_state=random_state, max_iter=max_iter, n_init=2)
+    if ch.boolean("w", 0.2, "fitted-before-with-weights-strategy"):
+        # the same object was fitted before with the third strategy ('weights',
+        # which learns per-cluster weights) and is reconfigured with set_params
+        model.set_params(strategy="weights")
+        ok0, _ = U.sut(c, "fit(before, strategy='weights')", model.fit, X)
+        model.set_params(strategy=strategy)
+        c.scenario["fitted_before_with_weights_strategy"] = bool(ok0)
+        c.probe("fitted_before_with_weights_strategy")
+        env()
     Xc = X.copy()
     try:
         if weights is None:
